@@ -415,15 +415,14 @@ func (ts *TermStore) Cmp(op Op, a, b *Term) *Term {
 		if a.op == OConst && a.val == 0 {
 			return ts.tTrue
 		}
-		if a.op == OZExt && b.op == OZExt && a.a.w == b.a.w {
-			return ts.Cmp(OULe, a.a, b.a)
-		}
+		// a <= b  ==  !(b < a): one atom per pair, so decided literals are recognised
+		return ts.Not(ts.Cmp(OULt, b, a))
 	}
-	if (op == OSLt || op == OSLe) && a.op == OZExt && b.op == OZExt && a.a.w == b.a.w && a.w > a.a.w {
-		if op == OSLt {
-			return ts.Cmp(OULt, a.a, b.a)
-		}
-		return ts.Cmp(OULe, a.a, b.a)
+	if op == OSLe {
+		return ts.Not(ts.Cmp(OSLt, b, a))
+	}
+	if op == OSLt && a.op == OZExt && b.op == OZExt && a.a.w == b.a.w && a.w > a.a.w {
+		return ts.Cmp(OULt, a.a, b.a)
 	}
 	return ts.mk(op, 0, a, b, nil, 0)
 }
